@@ -226,7 +226,29 @@ def hygiene(cone):
 def print_assumptions(prop_vfile, timeout=900):
     """Re-compile the property file (its dependencies are built) and parse the output of every
     Print Assumptions in it. Returns (ok, n_closed, axioms_listed, raw)."""
-    rc, out = sh(["timeout", str(timeout), "coqc", "-R", ".", "Mkdb", prop_vfile], cwd=COQ, timeout=timeout + 30)
+    # the output of compiling the property file is reused as long as its .vo (which `make` has just brought
+    # up to date with every source it depends on) is the one the output was produced with
+    vo = os.path.join(COQ, prop_vfile[:-2] + ".vo")
+    cache = os.path.join(BUILD, "pa_cache", prop_vfile.replace("/", "_") + ".json")
+    stamp = None
+    try:
+        st = os.stat(vo)
+        stamp = [st.st_mtime_ns, st.st_size, os.stat(os.path.join(COQ, prop_vfile)).st_mtime_ns]
+        c = json.load(open(cache))
+        if c.get("stamp") == stamp and c.get("rc") == 0:
+            rc, out = 0, c["out"]
+            stamp = None          # nothing to store
+        else:
+            raise KeyError
+    except (OSError, ValueError, KeyError):
+        rc, out = sh(["timeout", str(timeout), "coqc", "-R", ".", "Mkdb", prop_vfile], cwd=COQ, timeout=timeout + 30)
+        try:
+            st = os.stat(vo)          # coqc rewrote the .vo
+            stamp = [st.st_mtime_ns, st.st_size, os.stat(os.path.join(COQ, prop_vfile)).st_mtime_ns]
+            os.makedirs(os.path.dirname(cache), exist_ok=True)
+            json.dump({"stamp": stamp, "rc": rc, "out": out}, open(cache, "w"))
+        except OSError:
+            pass
     n_closed = out.count("Closed under the global context")
     axioms = []
     for m in re.finditer(r"^Axioms:\n((?:.+\n?)+?)(?=\n|\Z)", out, re.M):
